@@ -87,6 +87,25 @@ type slotM struct {
 	lastSeq uint32
 	last    *call // the request the server executed last on this slot
 	busy    *call // the request currently being executed
+
+	// preset: the slot's sequence ID was placed just below 2^32 (or at 0)
+	// through VerifSetSlotSequenceID, as 2^32 well-formed requests on the
+	// slot would have done.
+	preset bool
+}
+
+const maxU32 = ^uint32(0)
+
+// hot: the next few sequence IDs of the slot straddle the wrap-around
+// from 2^32-1 to 0 (RFC 8881 section 2.10.6.1: "the sequence ID wraps").
+func (sl *slotM) hot() bool {
+	return sl.preset && (sl.lastSeq >= maxU32-3 || sl.lastSeq <= 1)
+}
+
+// straddles: a and b compare differently as plain integers and as serial
+// numbers, i.e. the wrap-around lies between them.
+func straddles(a, b uint32) bool {
+	return a != b && (a < b) != (int32(a-b) < 0)
 }
 
 // openM is open state: one (incarnation, open-owner, file).
@@ -100,6 +119,7 @@ type openM struct {
 	access uint32
 	locks  map[string]*lockM // by lock-owner bytes
 	closed bool
+	preset bool   // the seqid was placed just below 2^32 through VerifSetStateIDSeqID
 	ioHold [2]int // in-flight I/O that used this open state (or one of its lock states)
 	ord    int
 }
@@ -116,6 +136,7 @@ type lockM struct {
 	seq    uint32
 	access uint32 // share access cloned from the open state at creation
 	freed  bool
+	preset bool // the seqid was placed just below 2^32 through VerifSetStateIDSeqID
 }
 
 func (l *lockM) String() string {
@@ -160,6 +181,25 @@ func fmtSID(s nfsv4.Stateid4) string {
 		return fmt.Sprintf("sid(%d,#%d)", s.Seqid, o)
 	}
 	return fmt.Sprintf("sid(%d,%x)", s.Seqid, s.Other)
+}
+
+// nextSeqID is RFC 8881 section 8.2.2, paragraph 2, as incrementSeqID
+// documents it: the seqid of a state ID is a 32 bit counter that starts at
+// one and wraps from 2^32-1 to one, because zero is the special value that
+// means "the most recent one".
+func nextSeqID(s uint32) uint32 {
+	if s == maxU32 {
+		return 1
+	}
+	return s + 1
+}
+
+// prevSeqID is the inverse of nextSeqID.
+func prevSeqID(s uint32) uint32 {
+	if s <= 1 {
+		return maxU32
+	}
+	return s - 1
 }
 
 // compareSeq is RFC 8881 section 8.2.2 / 8.2.4: zero means "most recent",
